@@ -145,6 +145,7 @@ type reqSpec struct {
 	SigType    string   `json:"sigtype"`
 	Digest     string   `json:"digest"`
 	NoFilename bool     `json:"no_filename,omitempty"`
+	Plain      bool     `json:"plaintext_listener,omitempty"` // request arrived on the plaintext listener (no TLS state)
 }
 
 var roleNames = []string{"dev", "release", "ops", "qa"}
@@ -240,6 +241,10 @@ func genReq(t *rapid.T, c *confSpec) *reqSpec {
 	}
 	if rapid.IntRange(0, 2).Draw(t, "hashdr") > 0 {
 		r.HeaderCred = rapid.IntRange(0, len(creds)-1).Draw(t, "hdrcred")
+	}
+	if rapid.IntRange(0, 3).Draw(t, "plaintext") == 0 {
+		// plaintext listener (server.listenhttp): there is no handshake, hence no TLS chain
+		r.Plain, r.Cred = true, -1
 	}
 	switch rapid.IntRange(0, 11).Draw(t, "reqvariant") {
 	case 0:
@@ -528,6 +533,9 @@ func (r *runner) do(q *reqSpec, withHeaders bool, bearer string) outcome {
 	req.TLS = &tls.ConnectionState{}
 	if q.Cred >= 0 {
 		req.TLS.PeerCertificates = creds[q.Cred].Chain
+	}
+	if q.Plain {
+		req.TLS = nil
 	}
 	if withHeaders {
 		if len(q.XFF) > 0 {
